@@ -1,6 +1,6 @@
 (** C02 (round 5) — proofs about the calling conventions of RadiusExpand (model/C02_Api.v). *)
 From Coq Require Import List NArith ZArith Bool Lia.
-From SK Require Import lib.LGraph lib.Reach lib.C01_GraphLemmas model.C01_Model model.C02_Model model.C02_Api proof.C02_Proof proof.C02_Ctx.
+From SK Require Import lib.LGraph lib.Reach lib.C01_GraphLemmas model.C01_Model model.C02_Model model.C02_Store model.C02_Api proof.C02_Proof proof.C02_Opts proof.C02_Ctx proof.C02_Store.
 Import ListNotations.
 Local Open Scope Z_scope.
 
@@ -137,6 +137,53 @@ Proof.
     + split; [discriminate|]. intros (_ & I & _). apply M in I. congruence.
 Qed.
 
+(** * get_rc pass by pass *)
+Theorem rc_passes_compose K m (g : xits) :
+  get_rc_x K false m g = LG (fst (rc_pass2 K m g)) (snd (rc_pass2 K m g)) /\
+  get_rc_x K true m g = LG (fst (rc_pass4 K m g)) (snd (rc_pass4 K m g)).
+Proof. split; reflexivity. Qed.
+
+(** after _add_changed_bonds: exactly the included bonds with [out_edge], exactly their endpoints with the selected labels *)
+Theorem rc_pass1_spec K m (g : xits) : wf g ->
+  (forall u v y, find_edge u v (snd (rc_pass1 K m g)) = Some y <->
+                 exists x, adj g u v = Some x /\ include_x m x = true /\ y = out_edge x) /\
+  (forall n b, assoc n (fst (rc_pass1 K m g)) = Some b <->
+               exists a, label g n = Some a /\ b = sel_attr K a /\
+                         exists u v x, In (u, v, x) (gedges g) /\ include_x m x = true /\ (n = u \/ n = v)).
+Proof.
+  intros W. unfold rc_pass1. split.
+  - intros u v y. rewrite fold_changed_x_snd. simpl. unfold oute. rewrite find_edge_map.
+    pose proof (find_edge_filter (fun _ _ x => include_x m x) (gedges g) (wf_simple W) (fun _ _ _ => eq_refl) u v) as FF.
+    cbv beta in FF. change (fun e : N * N * xedge => include_x m (snd e)) with (p_inc m) in FF. rewrite FF. clear FF.
+    fold (adj g u v). destruct (adj g u v) as [x|]; [|split; [discriminate|intros (x & E & _); discriminate]].
+    destruct (include_x m x) eqn:I; simpl.
+    + split; [intros [= <-]; exists x; auto|intros (x' & [= <-] & _ & ->); reflexivity].
+    + split; [discriminate|intros (x' & [= <-] & C & _); congruence].
+  - intros n b. rewrite fold_changed_x_fst. simpl. rewrite assoc_ins_all. simpl.
+    destruct (LGraph.mem n (ends (filter (p_inc m) (gedges g)))) eqn:M.
+    + apply mem_ends in M. destruct M as (u & v & x & F & Hn). apply filter_In in F. destruct F as [F P]. unfold p_inc in P. simpl in P.
+      destruct (label g n) as [a|]; simpl.
+      * split; [intros [= <-]; exists a; repeat split; auto; exists u, v, x; auto|intros (a' & [= <-] & -> & _); reflexivity].
+      * split; [discriminate|intros (a' & C & _); discriminate].
+    + split; [discriminate|]. intros (a & _ & _ & u & v & x & F & P & Hn).
+      assert (LGraph.mem n (ends (filter (p_inc m) (gedges g))) = true) as X; [|congruence].
+      apply mem_ends. exists u, v, x. split; [apply filter_In; split; [exact F|exact P]|exact Hn].
+Qed.
+
+(** every later pass only ADDS: an atom keeps the labels it was inserted with, a bond keeps its attributes (first wins) *)
+Theorem rc_passes_grow K m (g : xits) :
+  (forall n b, assoc n (fst (rc_pass1 K m g)) = Some b -> assoc n (fst (rc_pass2 K m g)) = Some b) /\
+  (forall u v y, find_edge u v (snd (rc_pass1 K m g)) = Some y -> find_edge u v (snd (rc_pass2 K m g)) = Some y) /\
+  (NoDup (node_ids g) -> forall n b, assoc n (fst (rc_pass2 K m g)) = Some b -> assoc n (fst (rc_pass3 K m g)) = Some b) /\
+  (forall u v y, find_edge u v (snd (rc_pass3 K m g)) = Some y -> find_edge u v (snd (rc_pass4 K m g)) = Some y).
+Proof.
+  unfold rc_pass4, rc_pass3, rc_pass2. split; [|split; [|split]].
+  - intros n b E. rewrite fold_hh_x_fst, assoc_ins_all, E. reflexivity.
+  - intros u v y E. rewrite fold_hh_x_snd, find_add_absent, E. reflexivity.
+  - intros Hnd n b E. simpl. rewrite (assoc_fold_charge K (gnodes g) Hnd), E. reflexivity.
+  - intros u v y E. simpl in *. rewrite fold_reconnect, find_add_absent, E. reflexivity.
+Qed.
+
 (** non-vacuity: ex_its (proof/C02_Proof.v) in a dict with keys ITS=10, K=11, id=12; a triangle with two changed bonds *)
 Definition ex_dict : dict := [(12%N, DZ 7); (10%N, DG ex_its)].
 Definition ex_tri : its :=
@@ -159,4 +206,14 @@ Example C02_api_nonvacuous :
 Proof.
   split; [vm_compute; repeat split; reflexivity|]. split; [vm_compute; split; reflexivity|].
   split; [vm_compute; repeat split; congruence|]. split; [exact ex_tri_wf|]. vm_compute. split; reflexivity.
+Qed.
+
+Definition ex_steps : xits := emb ex_its.
+Example C02_steps_nonvacuous :
+  length (fst (rc_pass1 K_default false ex_steps)) = 4%nat /\ length (fst (rc_pass2 K_default false ex_steps)) = 5%nat /\
+  length (snd (rc_pass1 K_default false ex_steps)) = 4%nat /\ length (snd (rc_pass2 K_default false ex_steps)) = 5%nat /\
+  wf ex_steps /\ rc_pass4 K_default false ex_steps = rc_pass2 K_default false ex_steps.
+Proof.
+  do 4 (split; [vm_compute; reflexivity|]). split; [|vm_compute; reflexivity].
+  apply (wf_gmap xn_of (fun e : iedge => (e, @None bool))). exact ex_its_wf.
 Qed.
